@@ -229,7 +229,8 @@ T_VALUES = [("5", 5, (None, "int", "Optional[int]")), ("-5", -5, (None, "int")),
             ('""', "", ("str", "Optional[str]", "Union[str, int]", None)), ("''", "", ("str", "Optional[str]")),
             ('"mnist"', "mnist", ("str", "Optional[str]")), ("'mnist'", "mnist", ("str",)), ('"a b"', "a b", ("str",)), ("mnist", "mnist", (None,)),
             ("```[]```", "[]", (None, "List[int]")), ("```(np.empty(0), np.empty(0))```", "(np.empty(0), np.empty(0))", (None,)),
-            ("```{'a': 1}```", "{'a': 1}", (None,)), ("(1, 2)", "(1, 2)", (None,)), ("[1, 2]", "[1, 2]", (None,))]
+            ("```{'a': 1}```", "{'a': 1}", (None,)), ("(1, 2)", "(1, 2)", (None,)), ("dict(a=1).items()", "dict(a=1).items()", (None,)),
+            ("(1, 2).count(1)", "(1, 2).count(1)", (None,)), ("[1, 2]", "[1, 2]", (None,))]
 T_TAILS = ("", ".", ". ")
 T_CELLS = [(v, ph) for v in range(len(T_VALUES)) for ph in range(len(PHRASES))]
 
@@ -263,8 +264,10 @@ def table_cell(c, active):
                         got = r.get("default")
                         if not _t_same(got, want):
                             # KF-C17-bracket-tail-dot: exactly the value text (back-ticks included) followed by the full stop
+                            # ... or, for a value that ends in ')' without starting with '(', the value without its last ')' (the
+                            # "strip a trailing ')." step then removes one character too many)
                             if not ("KF-C17-bracket-tail-dot" in active and bracketed and tail[:1] == "." and isinstance(got, str)
-                                    and got == text.lstrip("`") + "."):
+                                    and (got == text.lstrip("`") + "." or (text.endswith(")") and not text.startswith("(") and got == text[:-1]))):
                                 return False
                         if r["doc"] != (_norm(p) if rm else line):
                             return False
